@@ -8,7 +8,7 @@ CHECKS = {
  "C03": dict(
    text="TLC checks Wire.tla exhaustively (all streams of <=2/3 frames over the header-boundary lengths x every segmentation: "
         "RoundTrip, DecodersAgree, LimitExact, AccBound); every segmentation of every single-frame stream plus simulated "
-        "multi-frame behaviours are then replayed through all 9 encoder entry points x 8 decoder entry points of the real code, "
+        "multi-frame behaviours are then replayed through all 9 encoder entry points x 9 decoder entry points of the real code (one of them hands the unconsumed tail back to the tokio codec as its primed prefix and continues in a fresh buffer at every read), "
         "comparing bytes with an independent reference encoder and the frames out after every read with the model.",
    note="Trusted: the reference encoder and projection in harness/src/wire.rs; payload content is pseudo-random, not enumerated; "
         "lengths limited to the boundary classes in the cfg files.",
